@@ -27,6 +27,7 @@ func init() {
 			ruleGCTyped(c)
 			ruleALKey(c)
 			ruleALFinal(c)
+			ruleDstFresh(c)
 			ruleGCUintptr(c)
 			ruleGCLink(c)
 			ruleGCTarget(c)
@@ -55,6 +56,7 @@ func init() {
 			ruleEFU(c, "time.", 1)
 			rulePCArg(c, isTimePkgFunc(c.P), 5, 0)
 			ruleTSNoDur(c)
+			ruleTSUTC(c)
 			c.Note("not decided: DateCodec.Write divides Unix seconds by 86400 truncating toward zero (wrong before 1970 for non-midnight times); overflow of l*mult")
 		})
 
@@ -64,6 +66,7 @@ func init() {
 		func(c *Ctx) {
 			ruleBTReg(c)
 			ruleBTPure(c)
+			ruleWASel(c)
 			ruleSGReg(c)
 			ruleRegOverwrite(c)
 			ruleRegPair(c)
